@@ -22,6 +22,13 @@ def check(tier, seed):
         cases.append({'line': f"keygen_rng {s} ok:{xi.hex()}+ok:{'ee' * 32}", 'tag': 'try_keygen_with_rng == seeded(draw)', 'want': f"ok {pk.hex()} {sk.hex()} calls=tryfill32", 'model': i == 2})
         if i < 2:
             cases.append({'line': f"keygen_s {s} {xi.hex()}", 'tag': 'struct fields (model correspondence)', 'want': None, 'model': True})
+    # bulk: many more seeds against the Lean model (proved equal to Algorithm 6); a disagreement is re-judged by the Python reference.
+    # Rare stored words (a negative or extremal NTT-domain precompute, one key in a few hundred) are met here.
+    for s in fam.SETS:
+        for t in range(3000 if tier == 'thorough' else 330):
+            xs = (t * 2654435761 + seed + 1).to_bytes(8, 'little') + bytes(24)
+            cases.append({'line': f"keygen {s} {xs.hex()}", 'tag': 'keygen_from_seed == model of Algorithm 6 (bulk seeds)', 'want': (lambda o: 'key generation panicked' if o.startswith('panic') else None),
+                          'model': True, 'lazy_want': (lambda s=s, xs=xs: ' '.join(x.hex() for x in R.keygen_internal(R.PARAMS[s], xs)))})
     # hook level: the samplers of Algorithm 6 against the reference on fresh seeds
     for t in range(40 if tier == 'thorough' else 6):
         r34 = bytes(rng.randrange(256) for _ in range(34))
